@@ -176,12 +176,12 @@ Definition f_bind_data (p : nid) (n : cloose) (inh : str) (e : cel) : option (ce
   match e, n with
   | CEl i k own data kids, LText t =>
       (* `target._data_node = self`: whatever hung off the text slot before is no longer reachable (finding 29) *)
-      if N.eqb i p then Some (CEl i k own (chain_of [t]) kids, (in_scope inh own, null (chain_texts data))) else None
+      if N.eqb i p && is_ktag k then Some (CEl i k own (chain_of [t]) kids, (in_scope inh own, null (chain_texts data))) else None
   | _, _ => None
   end.
 Definition f_append_el (p : nid) (n : cloose) (inh : str) (e : cel) : option (cel * minfo) :=
   match e, n with
-  | CEl i k own data kids, LEl c => if N.eqb i p then Some (CEl i k own data (kids ++ [(c, no_chain)]), (in_scope inh own, true)) else None
+  | CEl i k own data kids, LEl c => if N.eqb i p && is_ktag k then Some (CEl i k own data (kids ++ [(c, no_chain)]), (in_scope inh own, true)) else None
   | _, _ => None
   end.
 
@@ -222,30 +222,22 @@ Definition f_detach (x : nid) (inh : str) (e : cel) : option (cel * cloose) :=
   end.
 
 (* content setter: DATA / TAIL write `text or None` into the slot, APPENDED objects keep their own content *)
-Definition set_in_chain (x : nid) (s : str) (ch : chain) : option chain :=
-  match split_texts x (chain_texts ch) with
-  | Some ([], _, _) =>
-      Some {| ch_head := ch_head ch; ch_slot := (if null s then None else Some s); ch_app := ch_app ch |}
-  | Some (_ :: b, m, a) =>
-      Some {| ch_head := ch_head ch; ch_slot := ch_slot ch; ch_app := b ++ {| t_id := t_id m; t_s := s |} :: a |}
-  | None => None
-  end.
-Fixpoint set_in_kids (x : nid) (s : str) (kids : list (cel * chain)) : option (list (cel * chain)) :=
-  match kids with
-  | [] => None
-  | (c, t) :: r =>
-      if N.eqb (cid c) x then Some kids
-      else match set_in_chain x s t with
-           | Some t' => Some ((c, t') :: r)
-           | None => match set_in_kids x s r with Some r' => Some ((c, t) :: r') | None => None end
-           end
+Definition set_chain (ch : chain) (b : list tobj) (m : tobj) (a : list tobj) (s : str) : chain :=
+  match b with
+  | [] => {| ch_head := ch_head ch; ch_slot := (if null s then None else Some s); ch_app := ch_app ch |}
+  | _ :: b' => {| ch_head := ch_head ch; ch_slot := ch_slot ch; ch_app := b' ++ {| t_id := t_id m; t_s := s |} :: a |}
   end.
 Definition f_set_content (x : nid) (s : str) (_ : str) (e : cel) : option (cel * unit) :=
   match e with
   | CEl i k own data kids =>
-      match set_in_chain x s data with
-      | Some d' => Some (CEl i k own d' kids, tt)
-      | None => match set_in_kids x s kids with Some kids' => Some (CEl i k own data kids', tt) | None => None end
+      match split_texts x (chain_texts data) with
+      | Some (b, m, a) => Some (CEl i k own (set_chain data b m a s) kids, tt)
+      | None =>
+          match split_kids x kids with
+          | Some (_, _, _, KEl) => Some (e, tt)                    (* not a text node: nothing to assign *)
+          | Some (bk, (c0, t0), ak, KTail b m a) => Some (CEl i k own data (bk ++ (c0, set_chain t0 b m a s) :: ak), tt)
+          | None => None
+          end
       end
   end.
 
@@ -260,7 +252,7 @@ Fixpoint merge_el (e : cel) : cel :=
       CEl i k own (merge_chain data) (map (fun kt => match kt with (c, t) => (merge_el c, merge_chain t) end) kids)
   end.
 Definition f_merge (p : nid) (_ : str) (e : cel) : option (cel * unit) :=
-  if N.eqb (cid e) p then Some (merge_el e, tt) else None.
+  if N.eqb (cid e) p && is_ktag (ckind_of e) then Some (merge_el e, tt) else None.
 
 (* the in-scope default namespace at a node *)
 Definition f_dns_at (x : nid) (inh : str) (e : cel) : option (cel * str) :=
